@@ -137,6 +137,24 @@ class HGen:
                 out.append((version, [], ops, 30))
         return out
 
+    def error_codes(self):
+        """one caller per OCPP error code (suppression off, then on): the matching CALLERROR must come back as
+        exactly that error class resp. None; an undefined code as the unknown-code error"""
+        from harness import oracles as O
+        out = []
+        for version in ("1.6", "2.0.1"):
+            ops = []
+            for k, code in enumerate(O.STANDARD_ERROR_CODES + ["NoSuchCode"]):
+                ops.append(("start", k, "e%d" % k, "Heartbeat", {}, False, False, True))
+                ops.append(("inbound", json.dumps([4, "e%d" % k, code, "descr %d" % k, {"k": k}])))
+                ops.append(("tick", 1))
+            for k, code in enumerate(["GenericError", "FormationViolation", "NoSuchCode"]):
+                ops.append(("start", 50 + k, "s%d" % k, "Heartbeat", {}, False, True, True))
+                ops.append(("inbound", json.dumps([4, "s%d" % k, code, "", {}])))
+                ops.append(("tick", 1))
+            out.append((version, [], ops, 30))
+        return out
+
     def all(self):
         n = 60 if self.tier == "quick" else 600
         hs = []
@@ -144,7 +162,7 @@ class HGen:
             timeout = self.rng.choice([30, 2, 10])
             hs.append(self.history(self.rng.choice([6, 12, 25, 40]) if self.tier == "quick" else self.rng.choice([10, 40, 120]), timeout))
         hs.append(self.stale_flood(300 if self.tier == "quick" else 3000))
-        return self.skip_overlap() + hs
+        return self.skip_overlap() + self.error_codes() + hs
 
 
 def run_histories(rep, hs, tag, prop_id, oracle, view, shard_size=8, async_validation=False):
